@@ -20,6 +20,7 @@ from .instr import (
     Imm20,
     ImmOffset,
     EMemReg,
+    EMemValueOffsetHelper,
     RegIMemOffset,
     EMemIMemOffset,
     Reg3,
@@ -257,9 +258,14 @@ class Assembler:
                     # Determine if a PRE prefix byte is required based on
                     # internal memory operands.
                     operands_list = list(instr.operands())
-                    imem_ops = [
-                        op for op in operands_list if isinstance(op, IMemOperand)
-                    ]
+                    imem_ops = []
+                    for op in operands_list:
+                        # [(m)±n] operands expose their internal-memory pointer
+                        # through a helper; its addressing mode needs a PRE too.
+                        if isinstance(op, EMemValueOffsetHelper):
+                            op = op.value
+                        if isinstance(op, IMemOperand):
+                            imem_ops.append(op)
 
                     pre_byte: Optional[int] = None
                     if len(imem_ops) == 2:
